@@ -192,6 +192,136 @@ theorem fifo_within_round (b : OB) (r : Int) (d : Nat) (hs : Sorted b.buf)
 example : (run (new 4) [.add 4 1, .add 9 2, .add 4 3]).buf = [⟨4, 1⟩, ⟨4, 3⟩, ⟨9, 2⟩] := by decide
 example : stableInsert [⟨4, 1⟩, ⟨9, 2⟩] ⟨4, 3⟩ = [⟨4, 1⟩, ⟨4, 3⟩, ⟨9, 2⟩] := by decide
 
+/-! ### refinement, continued: whole arrival sequences — the buffer is a stable sort of what arrived -/
+theorem stableInsert_perm (l : List Item) (it : Item) : (stableInsert l it).Perm (it :: l) := by
+  unfold stableInsert
+  refine List.perm_middle.trans (List.Perm.cons _ ?_)
+  exact List.filter_append_perm _ l
+
+theorem stableInsert_length (l : List Item) (it : Item) : (stableInsert l it).length = l.length + 1 := by
+  simpa using (stableInsert_perm l it).length_eq
+
+theorem mem_stableInsert {l : List Item} {it y : Item} : y ∈ stableInsert l it ↔ y = it ∨ y ∈ l := by
+  rw [(stableInsert_perm l it).mem_iff]; simp
+
+/-- a fresh data value is never swallowed by the repeat test. -/
+theorem isRepeat_false_of_fresh (buf : List Item) (r : Int) (d : Nat) (hs : Sorted buf)
+    (hf : ∀ y ∈ buf, y.data ≠ d) : isRepeat buf (search buf r) d = false := by
+  obtain ⟨hle, _, _⟩ := search_spec hs r
+  unfold isRepeat
+  by_cases h0 : 0 < search buf r
+  · have hi : search buf r - 1 < buf.length := by omega
+    have hm : buf.getD (search buf r - 1) default ∈ buf := by
+      rw [← List.getElem_eq_getD (h := hi)]; exact List.getElem_mem hi
+    have hne := hf _ hm
+    have : decide ((buf.getD (search buf r - 1) default).data = d) = false := decide_eq_false hne
+    rw [this]; simp
+  · have : decide (0 < search buf r) = false := decide_eq_false h0
+    rw [this]; simp
+
+/-- `Add` of each item in turn. -/
+def addAll (b : OB) (items : List Item) : OB := items.foldl (fun b it => add b it.round it.data) b
+
+/-- **adds_are_stable_sort**: adding items with pairwise distinct payloads (distinct blocks) that fit the capacity,
+in ANY arrival order, leaves exactly the stable insertion sort of the arrivals by round. -/
+theorem adds_are_stable_sort (items : List Item) : ∀ (b : OB), Sorted b.buf →
+    b.buf.length + items.length ≤ b.max →
+    (∀ x ∈ items, ∀ y ∈ b.buf, y.data ≠ x.data) →
+    (items.map (·.data)).Nodup →
+    (addAll b items).buf = items.foldl stableInsert b.buf := by
+  induction items with
+  | nil => intro b _ _ _ _; rfl
+  | cons it rest ih =>
+    intro b hs hlen hfresh hnd
+    have hrep := isRepeat_false_of_fresh b.buf it.round it.data hs (hfresh it List.mem_cons_self)
+    have hadd : (add b it.round it.data).buf = stableInsert b.buf it := by
+      have h := add_refines_stable_insert b it.round it.data hs hrep
+      rw [h]
+      apply List.take_of_length_le
+      have := stableInsert_length b.buf ⟨it.round, it.data⟩
+      simp only [List.length_cons] at hlen
+      omega
+    show (addAll (add b it.round it.data) rest).buf = rest.foldl stableInsert (stableInsert b.buf it)
+    rw [← hadd]
+    simp only [List.map_cons, List.nodup_cons] at hnd
+    apply ih
+    · exact add_sorted b it.round it.data hs
+    · rw [add_max, hadd, stableInsert_length]; simp only [List.length_cons] at hlen; omega
+    · intro x hx y hy
+      rw [hadd, mem_stableInsert] at hy
+      rcases hy with rfl | hy
+      · intro he
+        exact hnd.1 (List.mem_map.mpr ⟨x, hx, he.symm⟩)
+      · exact hfresh x (List.mem_cons_of_mem _ hx) y hy
+    · exact hnd.2
+
+/-- from an empty buffer: the content is the stable insertion sort of the arrivals. -/
+theorem adds_from_empty (m : Nat) (items : List Item) (hlen : items.length ≤ m)
+    (hnd : (items.map (·.data)).Nodup) :
+    (addAll (new m) items).buf = items.foldl stableInsert [] ∧
+    ((addAll (new m) items).buf).Perm items := by
+  have h := adds_are_stable_sort items (new m) List.Pairwise.nil (by simpa [new] using hlen)
+    (by intro x _ y hy; simp [new] at hy) hnd
+  have h' : (addAll (new m) items).buf = items.foldl stableInsert [] := h
+  refine ⟨h', ?_⟩
+  rw [h']
+  have : ∀ (l acc : List Item), (l.foldl stableInsert acc).Perm (l.reverse ++ acc) := by
+    intro l
+    induction l with
+    | nil => intro acc; simp
+    | cons x xs ih =>
+      intro acc
+      refine (ih (stableInsert acc x)).trans ?_
+      simp only [List.reverse_cons, List.append_assoc, List.singleton_append]
+      exact List.Perm.append_left _ (stableInsert_perm acc x)
+  have h2 := this items []
+  rw [List.append_nil] at h2
+  exact h2.trans (List.reverse_perm items)
+
+example : (addAll (new 5) [⟨4, 1⟩, ⟨9, 2⟩, ⟨4, 3⟩, ⟨1, 4⟩]).buf = [⟨1, 4⟩, ⟨4, 1⟩, ⟨4, 3⟩, ⟨9, 2⟩] := by decide
+
+
+
+/-- `Pop` until the buffer reports empty (at most `n` times). -/
+def drain : Nat → OB → List Item
+  | 0, _ => []
+  | n + 1, b =>
+    match pop b with
+    | (b', some x) => x :: drain n b'
+    | (_, none) => []
+
+/-- popping a buffer dry hands out its content front to back. -/
+theorem drain_all : ∀ (l : List Item) (m : Nat), drain l.length { max := m, buf := l } = l := by
+  intro l
+  induction l with
+  | nil => intro m; rfl
+  | cons x xs ih => intro m; simp only [List.length_cons, drain, pop]; rw [ih]
+
+/-- **pop_sequence_is_stable_sort**: distinct blocks arriving in any order (within the capacity) are handed out by
+`Pop` in non-decreasing round order, blocks of one round in arrival order, each exactly once. -/
+theorem pop_sequence_is_stable_sort (m : Nat) (items : List Item) (hlen : items.length ≤ m)
+    (hnd : (items.map (·.data)).Nodup) :
+    let out := drain items.length (addAll (new m) items)
+    out = items.foldl stableInsert [] ∧ out.Perm items ∧ Sorted out := by
+  obtain ⟨h1, h2⟩ := adds_from_empty m items hlen hnd
+  have hb : addAll (new m) items = { max := (addAll (new m) items).max, buf := (addAll (new m) items).buf } := rfl
+  have hl : items.length = (addAll (new m) items).buf.length := h2.length_eq.symm
+  intro out
+  have ho : out = (addAll (new m) items).buf := by
+    show drain items.length (addAll (new m) items) = _
+    rw [hb, hl]; exact drain_all _ _
+  have hsorted : Sorted (addAll (new m) items).buf := by
+    have : ∀ (l : List Item) (b : OB), Sorted b.buf → Sorted (addAll b l).buf := by
+      intro l
+      induction l with
+      | nil => intro b h; exact h
+      | cons x xs ih => intro b h; exact ih _ (add_sorted b x.round x.data h)
+    exact this items (new m) List.Pairwise.nil
+  rw [ho]
+  exact ⟨h1, h2, hsorted⟩
+
+example : drain 4 (addAll (new 5) [⟨4, 1⟩, ⟨9, 2⟩, ⟨4, 3⟩, ⟨1, 4⟩]) = [⟨1, 4⟩, ⟨4, 1⟩, ⟨4, 3⟩, ⟨9, 2⟩] := by decide
+
 /-- What the code does for ill-formed input (same data, different round): the second add is
 swallowed. Stated for information; blocks never produce it because a block's identity fixes its round. -/
 theorem repeat_ignores_round_illformed :
